@@ -20,6 +20,7 @@ package main
 // all ClassAd-reader call sites of security/ and ccb/.
 
 import (
+	"bytes"
 	"context"
 	"fmt"
 	"net"
@@ -253,4 +254,127 @@ func decodeHandshakeAds(c *Ctx) error {
 	}
 	security.ClearSessionCache()
 	return nil
+}
+
+// ------------------------------------------------------------------ sub-protocol readers
+//
+// The length-prefixed readers inside the authentication sub-protocols that are reached through
+// hooks (security/verif_hooks_decode2.go): Kerberos request blobs, the receiving steps of the
+// token exchange in their OK and error-state branches, the CLAIMTOBE server message. One length
+// field at a time takes each value of the catalogue; lengths that could size a buffer beyond
+// 64 MiB run in the child process. `krb` is compared with the model (krbRead); the token steps
+// and CLAIMTOBE are judged by the implementation-side oracle only (no panic, allocation in
+// proportion to the input, cap honoured).
+
+type subKind struct {
+	entry string
+	model bool
+	run   func(w *dworld) (string, error)
+}
+
+var subKinds = map[string]subKind{
+	"krb": {"security.kerberosReadRequest", true, func(w *dworld) (string, error) {
+		v, err := security.VerifKerberosReadRequest(bg, w.src.real)
+		return showVal(v), err
+	}},
+	"tok2": {"security.receiveTokenStep2", false, func(w *dworld) (string, error) {
+		return "", security.VerifTokenReceiveStep2(bg, w.src.real, "alice@pool", []byte{1, 2, 3, 4})
+	}},
+	"tok1s": {"security.receiveServerTokenStep1", false, func(w *dworld) (string, error) {
+		return "", security.VerifTokenServerReceiveStep1(bg, w.src.real)
+	}},
+	"tok3s": {"security.receiveServerTokenStep3", false, func(w *dworld) (string, error) {
+		return "", security.VerifTokenServerReceiveStep3(bg, w.src.real, "alice@pool", []byte{5, 6, 7, 8})
+	}},
+	"ctb": {"security.performClaimToBeAuthenticationServer", false, func(w *dworld) (string, error) {
+		return "", security.VerifClaimToBeServer(bg, w.src.real)
+	}},
+}
+
+func (w *dworld) opSub(kind string) opRes {
+	k := subKinds[kind]
+	w.nomodel = !k.model
+	return w.run(kind, k.entry, 0, func() (string, error) { return k.run(w) })
+}
+
+func decodeSubprotocols(c *Ctx, cases *[]Case, childJobs *[]childJob) {
+	const pwErr, pwOK = int64(security.AUTH_PW_ERROR), int64(security.AUTH_PW_A_OK)
+	id := func(s string) []dfield { return []dfield{fInt(int64(len(s))), fStr(s)} }
+	cat := func(parts ...[]dfield) []dfield {
+		var out []dfield
+		for _, p := range parts {
+			out = append(out, p...)
+		}
+		return out
+	}
+	raw := func(n int) []dfield { return []dfield{fInt(int64(n)), fRaw(bytes.Repeat([]byte{0x5a}, n))} }
+	type shape struct {
+		kind, name string
+		fs         []dfield
+	}
+	shapes := []shape{
+		{"krb", "request", []dfield{fInt(1), fInt(6), fRaw([]byte("AP_REQ"))}},
+		{"tok2", "error-state", cat([]dfield{fInt(pwErr)}, id(""), id(""), raw(0), raw(3), raw(0))},
+		{"tok2", "ok", cat([]dfield{fInt(pwOK)}, id("alice@pool"), id("srv@pool"), []dfield{fInt(4), fRaw([]byte{1, 2, 3, 4})}, raw(8), raw(32))},
+		{"tok1s", "error-state", cat([]dfield{fInt(pwErr)}, id(""), []dfield{fStr("")}, raw(2))},
+		{"tok1s", "ok", cat([]dfield{fInt(pwOK)}, id("alice@pool"), []dfield{fStr("hdr.payload")}, raw(16))},
+		{"tok3s", "error-state", cat([]dfield{fInt(pwErr)}, id(""), raw(2), raw(0))},
+		{"tok3s", "ok", cat([]dfield{fInt(pwOK)}, id("alice@pool"), []dfield{fInt(4), fRaw([]byte{5, 6, 7, 8})}, raw(32))},
+		{"ctb", "user", []dfield{fInt(1), fStr("alice@pool")}},
+	}
+	lens := []int64{-1, 0, 1, 5, 255, 256, 257, 4096, 1 << 20, 1<<24 + 3, -2147483648, -1 << 63}
+	fatal := []int64{2147483647, 1 << 31, 1 << 33, 1 << 40, 1 << 62, 9223372036854775807}
+	for _, sh := range shapes {
+		for _, enc := range []bool{false, true} {
+			// the message as it is
+			{
+				w := newDWorld(c, fmt.Sprintf("subproto %s %s valid enc=%s", sh.kind, sh.name, b01(enc)), enc, false, []dframe{{p: serialize(sh.fs, enc), eom: true}}, 1)
+				w.opSub(sh.kind)
+				c.Count("subproto:" + sh.kind)
+				w.done(cases, true)
+			}
+			for i, f := range sh.fs {
+				if f.kind != "int" || (i == 0 && sh.kind != "krb") {
+					continue // (position 0 is the status word, not a length)
+				}
+				for _, l := range append(append([]int64{}, lens...), fatal...) {
+					fs := append([]dfield{}, sh.fs...)
+					fs[i] = fInt(l)
+					frames := []dframe{{p: serialize(fs, enc), eom: true}}
+					label := fmt.Sprintf("subproto %s %s int#%d=%d enc=%s", sh.kind, sh.name, i, l, b01(enc))
+					if l > 1<<26 {
+						if enc {
+							continue // (one string mode is enough for the process-per-case lengths)
+						}
+						*childJobs = append(*childJobs, childJob{Label: label, Kind: sh.kind, Enc: enc, Frames: hexFrames(frames), InBytes: len(frames[0].p)})
+						c.Count("subproto:child:" + sh.kind)
+						continue
+					}
+					w := newDWorld(c, label, enc, false, frames, 1)
+					w.opSub(sh.kind)
+					c.Count("subproto:" + sh.kind)
+					w.done(cases, true)
+				}
+			}
+		}
+	}
+	// CLAIMTOBE user name many times its cap
+	maxUser, _ := security.VerifAuthLimits()
+	for _, k := range []int{10, 100, 400} {
+		for _, enc := range []bool{false, true} {
+			fs := []dfield{fInt(1), {kind: "str", s: bytes.Repeat([]byte("u"), k*maxUser)}}
+			frames := chunkFrames(serialize(fs, enc), 1024)
+			w := newDWorld(c, fmt.Sprintf("subproto ctb user-name x%d enc=%s", k, b01(enc)), enc, false, frames, 1)
+			r := w.opSub("ctb")
+			taken := w.src.wire - len(w.src.conn.In)
+			if r.err == nil && r.panicV == nil {
+				w.violate("C13:cap-accepted:security.performClaimToBeAuthenticationServer", fmt.Sprintf("a user name of %d bytes was accepted (cap %d)", k*maxUser, maxUser), "an error", "success")
+			}
+			if lim := maxUser + 64<<10 + 1024 + 5; taken > lim {
+				w.violate("C13:cap:security.performClaimToBeAuthenticationServer", fmt.Sprintf("took %d bytes of a %d-byte user name from the connection (cap %d)", taken, k*maxUser, maxUser), fmt.Sprintf("≤ cap + 64 KiB read-ahead allowance + one frame = %d", lim), fmt.Sprint(taken))
+			}
+			c.Count("subproto:ctb-oversize")
+			w.done(cases, true)
+		}
+	}
 }
